@@ -337,6 +337,13 @@ def run_c17_part(ctx):
     sid += 1
     scs.append(mk(sid, "migrate-unconfigured", "migrate", [{"a": "Probe", "tag": 90}, call("c1", 11),
                {"a": "AnswerError", "tag": 11, "code": 303, "text": "PHONE_MIGRATE_9", "what": "anyerror"}, {"a": "Await", "c": "c1"}, {"a": "Settle"}], dc={"dc2": 2}))
+    # several migrations to unconfigured data centres on one client, then ordinary traffic and a salt rotation
+    sid += 1
+    scs.append(mk(sid, "migrate-unconfigured-twice", "migrate", [{"a": "Probe", "tag": 90}, call("c1", 11),
+               {"a": "AnswerError", "tag": 11, "code": 303, "text": "PHONE_MIGRATE_9", "what": "anyerror"}, {"a": "Await", "c": "c1"},
+               call("c2", 12), {"a": "AnswerError", "tag": 12, "code": 303, "text": "PHONE_MIGRATE_7", "what": "anyerror"}, {"a": "Await", "c": "c2"},
+               call("c3", 13), {"a": "AnswerError", "tag": 13, "code": 303, "text": "PHONE_MIGRATE_9", "what": "anyerror"}, {"a": "Await", "c": "c3"},
+               {"a": "Rotate"}, {"a": "Probe", "tag": 91}, {"a": "Settle"}], dc={"dc2": 2}))
     # PHONE_MIGRATE without a usable number is an error like any other: returned, never a crash
     for text in ("PHONE_MIGRATE_X", "PHONE_MIGRATE_", "PHONE_MIGRATE_abc", "PHONE_MIGRATE_%d", "PHONE_MIGRATE_99999999999999999999"):
         sid += 1
